@@ -162,7 +162,7 @@ class ParseMCNPCell:
         ast_mcnp = get_ast(geometry)
 
         option = re.sub(' *: *', ':', option)
-        option = (option.lower().replace('(', ' ').replace(')', ' ')
+        option = (option.lower().replace('(', ' ( ').replace(')', ' ) ')
                   .replace('=', ' '))
         kw_list = list(reversed(option.split()))
         kws = self.parse_keywords(kw_list)
@@ -281,8 +281,13 @@ class ParseMCNPCell:
             fillid_bounds = bounds
         else:
             fillid_u = int(mcnp_float(first_arg))
-        while kw_list and kw_list[-1][0] in '0123456789.+-':
-            fill_params.append(mcnp_float(kw_list.pop()))
+        # the optional transformation is enclosed in parentheses
+        fill_params = [mcnp_float(token)
+                       for token in self.parse_parenthesized(kw_list)]
+        if kw_list and kw_list[-1][0] in '0123456789.+-':
+            msg = (f'unexpected entry {kw_list[-1]!r} after the universe '
+                   'specifications of the FILL keyword')
+            raise ParseMCNPCellError(msg)
         # now handle the case where the number of the
         # transformation was given instead of the transformation
         # parameters
@@ -307,6 +312,21 @@ class ParseMCNPCell:
         return fillid_bounds, fillid_u, tuple(fill_params)
 
     @staticmethod
+    def parse_parenthesized(kw_list):
+        '''If the next token in `kw_list` is an opening parenthesis, consume
+        all the tokens up to the matching closing parenthesis and return them
+        (without the parentheses); otherwise, return an empty list.'''
+        if not kw_list or kw_list[-1] != '(':
+            return []
+        kw_list.pop()
+        tokens = []
+        while kw_list and kw_list[-1] != ')':
+            tokens.append(kw_list.pop())
+        if kw_list:
+            kw_list.pop()
+        return tokens
+
+    @staticmethod
     def parse_lat_kw(kw_list):
         '''Parse the argument of the LAT keyword.'''
         lat_opt = kw_list.pop()
@@ -323,9 +343,12 @@ class ParseMCNPCell:
 
     def parse_trcl_kw(self, elt, kw_list):
         '''Parse the arguments of the TRCL and *TRCL keywords.'''
-        trcl_params = []
-        while kw_list and kw_list[-1][0] in '0123456789.+-':
-            trcl_params.append(kw_list.pop())
+        # either the number of a transformation, or the parameters of the
+        # transformation enclosed in parentheses
+        trcl_params = self.parse_parenthesized(kw_list)
+        if (not trcl_params and kw_list
+                and kw_list[-1][0] in '0123456789.+-'):
+            trcl_params = [kw_list.pop()]
         # now handle the case where the number of the
         # transformation was given instead of the transformation
         # parameters
